@@ -222,3 +222,72 @@ Definition engines_of_tables (rx gl : list (str * str * bool)) : engines :=
   mkengines (lookup2 rx) (lookup2 gl).
 Definition mem_pair (tbl : list (N * N)) (a b : N) : bool :=
   existsb (fun p => (fst p =? a) && (snd p =? b)) tbl.
+
+(* ---------------------------------------------------------------- the documented sets
+   A second specification, written from site/src/docs/filtersets/reference.md alone and sharing
+   none of the definitions the implementation model decides with: no [matcher_match], no
+   [w_depends_on].  The package graph is a direct-dependency relation [direct a b] ("package a
+   lists b as a dependency"); "possibly transitive" is its reflexive-transitive closure
+   (Coq.Relations [clos_refl_trans]).  Only the two external engines (regex crate, globset) and
+   the list of workspace packages are shared.
+
+   reference.md:  `=string` equality -- "match a package or test name that's equal to string";
+   `~string` contains -- "containing string"; `/regex/`, `#glob` -- the engines;
+   package(m) "all tests in packages (crates) matching m";
+   deps(m)  "all tests in crates matching m, and all of their (possibly transitive) dependencies";
+   rdeps(m) "all tests in crates matching m, and all the crates that (possibly transitively)
+            depend on m";
+   &, and intersection; |, +, or union; not, ! "everything not included in set";
+   - "everything in set1 that isn't in set2"; (set) "everything in set". *)
+From Coq Require Import Relations.Relation_Operators.
+
+Definition doc_name_match (E : engines) (m : matcher) (s : str) : Prop :=
+  match m with
+  | MEqual x _ => s = x
+  | MContains x _ => exists before after, s = before ++ x ++ after
+  | MGlob g _ => glob_match E g s = true
+  | MRegex r => regex_match E r s = true
+  end.
+
+Definition doc_set (direct : N -> N -> Prop) (E : engines) (W : world) (dt : tquery -> bool)
+           (d : setdef) (q : tquery) : Prop :=
+  let bq := fst q in
+  match d with
+  | SAll => True
+  | SNone => False
+  | STest m => doc_name_match E m (snd q)
+  | SPackage m =>
+      exists name, In (q_pkg bq, name) (w_pkgs W) /\ doc_name_match E m name
+  | SDeps m =>      (* a matching crate x, and the test's crate is x or a transitive dependency of x *)
+      exists x name, In (x, name) (w_pkgs W) /\ doc_name_match E m name /\
+                     clos_refl_trans N direct x (q_pkg bq)
+  | SRdeps m =>     (* a matching crate x, and the test's crate is x or transitively depends on x *)
+      exists x name, In (x, name) (w_pkgs W) /\ doc_name_match E m name /\
+                     clos_refl_trans N direct (q_pkg bq) x
+  | SBinaryId m => doc_name_match E m (q_binary_id bq)
+  | SKind m => doc_name_match E m (q_kind bq)
+  | SBinary m => doc_name_match E m (q_binary_name bq)
+  | SPlatform p => q_platform bq = p
+  | SDefault => dt q = true
+  end.
+
+Fixpoint spec_member (direct : N -> N -> Prop) (E : engines) (W : world) (dt : tquery -> bool)
+         (e : pexpr) (q : tquery) : Prop :=
+  match e with
+  | PNot _ a => ~ spec_member direct E W dt a q
+  | PUnion _ a b => spec_member direct E W dt a q \/ spec_member direct E W dt b q
+  | PInter _ a b => spec_member direct E W dt a q /\ spec_member direct E W dt b q
+  | PDiff _ a b => spec_member direct E W dt a q /\ ~ spec_member direct E W dt b q
+  | PParens a => spec_member direct E W dt a q
+  | PSet d => doc_set direct E W dt d q
+  end.
+
+(* what ties guppy's depends_on table to the graph: on workspace packages it answers exactly
+   "a is b or transitively depends on b" *)
+Definition graph_ok (direct : N -> N -> Prop) (W : world) : Prop :=
+  forall a b, In a (map fst (w_pkgs W)) -> In b (map fst (w_pkgs W)) ->
+    (w_depends_on W a b = true <-> clos_refl_trans N direct a b).
+
+(* a test belongs to a workspace package *)
+Definition query_ok (W : world) (q : tquery) : Prop :=
+  In (q_pkg (fst q)) (map fst (w_pkgs W)).
